@@ -25,11 +25,14 @@ class FineStub:
 
 
 class ContourStub:
-    """2*ny+1 points; point k coincides with fine-contour node k (so interp1d is exact)."""
+    """2*ny+1 points; point k coincides with fine-contour node k + fine_offset (so interp1d is
+    exact); fine_offset > 0 models a fine contour that extends below the first contour point, so
+    that the fine contour's start index differs from the contour's."""
 
-    def __init__(self, ctx, tag, npts, startInd=0):
+    def __init__(self, ctx, tag, npts, startInd=0, fine_offset=0):
         self.tag = tag
-        self.fine = FineStub(ctx, tag, npts, startInd)
+        self.off = fine_offset
+        self.fine = FineStub(ctx, tag, npts + fine_offset, startInd + fine_offset)
         self.startInd = startInd
         self.npts = npts
 
@@ -37,7 +40,7 @@ class ContourStub:
         return self.fine
 
     def get_distance(self, psi=None):
-        return self.fine.distance
+        return self.fine.distance[self.off : self.off + self.npts]
 
 
 def trapz_stub(y, x=None, initial=None):
@@ -65,7 +68,7 @@ class Interp1dStub:
         return out
 
 
-def make_chain(ctx, nx=1, ny=1, start1=0, periodic=False, with_second=True):
+def make_chain(ctx, nx=1, ny=1, start1=0, periodic=False, with_second=True, fine_offset=0):
     """region r1 (yGroupIndex 0) -> r2; returns (r1, r2, field stubs)."""
     from hypnotoad.core.mesh import MeshRegion
 
@@ -74,7 +77,7 @@ def make_chain(ctx, nx=1, ny=1, start1=0, periodic=False, with_second=True):
     def mkreg(name, rid, start):
         r = mk.skeleton_region(True)
         r.nx, r.ny, r.name, r.myID = nx, ny, name, rid
-        r.contours = [ContourStub(ctx, "%s_c%d" % (name, a), 2 * ny + 1, start) for a in range(2 * nx + 1)]
+        r.contours = [ContourStub(ctx, "%s_c%d" % (name, a), 2 * ny + 1, start, fine_offset if rid == 1 else 0) for a in range(2 * nx + 1)]
         r.yGroupIndex = 0 if rid == 1 else 1
         r.equilibriumRegion.psi = None
         return r
@@ -129,7 +132,7 @@ def make_chain(ctx, nx=1, ny=1, start1=0, periodic=False, with_second=True):
     return r1, r2, integ
 
 
-def run_zshift(periodic, single=False):
+def run_zshift(periodic, single=False, start1=0, fine_offset=0):
     """Real calcZShift on a two-region chain (nx=1, ny=1); single=True: ONE region that is its
     own upper and lower neighbour (the periodic core of a single null)."""
 
@@ -138,13 +141,13 @@ def run_zshift(periodic, single=False):
         from vc.shim import patched
         from vc.sym import spec_mode
 
-        r1, r2, integ = make_chain(ctx, periodic=periodic, with_second=not single)
+        r1, r2, integ = make_chain(ctx, periodic=periodic, with_second=not single, start1=start1, fine_offset=fine_offset, ny=2 if start1 else 1)
         if single:
             r1.connections["lower"] = 1
         # preconditions: R > 0, Bp != 0 at the fine-contour nodes
         for r in (r1,) if single else (r1, r2):
             for c in r.contours:
-                for k in range(c.npts):
+                for k in range(c.npts + c.off):
                     ctx.assume(c.fine.positions[k, 0] > 0)
         with patched((M, "cumulative_trapezoid", trapz_stub), (M, "interp1d", Interp1dStub), (M, "print", lambda *a, **k: None)):
             # Bp^2 > 0 is needed by sqrt/division: assumed through the safety mechanism below
@@ -173,15 +176,16 @@ def run_zshift(periodic, single=False):
                     for i in range(arr.shape[0]):
                         c = reg.contours[2 * i + cpar]
                         for j in range(arr.shape[1]):
-                            k = 2 * j + ppar
-                            own = T(c, k) - T(c, c.startInd)
+                            k = 2 * j + ppar + c.off
+                            own = T(c, k) - T(c, c.startInd + c.off)
                             if base is None:
                                 want = own
                             else:
                                 face = "ylow" if cpar == 1 else "corners"
                                 want = getattr(base.zShift, face)[i, -1] + own
                             ctx.oblige(arr[i, j] == want, "%s.zShift.%s[%d,%d] = %strapezoid integral from the start of its contour" % (reg.name, loc, i, j, "" if base is None else "value at the end of the previous region + "))
-            ctx.oblige(And(r1.zShift.ylow[0, 0] == 0, r1.zShift.corners[0, 0] == 0, r1.zShift.corners[1, 0] == 0), "zShift is zero at the start of the chain")
+            j0 = start1 // 2  # the y-face at the contour's start point (beyond it: guard cells, negative values)
+            ctx.oblige(And(r1.zShift.ylow[0, j0] == 0, r1.zShift.corners[0, j0] == 0, r1.zShift.corners[1, j0] == 0), "zShift is zero at the start of the chain (the contour's start point, i.e. the target)")
             last = r1 if single else r2
             if not single:
                 ctx.oblige(And(r2.zShift.ylow[0, 0] == r1.zShift.ylow[0, -1], r2.zShift.corners[0, 0] == r1.zShift.corners[0, -1], r2.zShift.corners[1, 0] == r1.zShift.corners[1, -1]), "zShift continuous across the join r1->r2")
